@@ -162,7 +162,7 @@ def check_name_injective(ctx, repo):
 
 
 @rule("C09.name-injective", props=["C09", "C13", "C11", "C12", "C02", "C08"], min_instances=3, mutants=[
-    ("drop the fresh suffix (unary)", ("operator_dict", "            keys_out, func = do_codegen(self.codegen, mv)\n            func.__name__ = f'{func.__name__}_{id(func)}'\n",
+    ("drop the fresh suffix (unary)", ("operator_dict", "            keys_out, func = do_codegen(self.codegen, mv)\n            # The generated name only encodes which blades are present, not their order: make it unique.\n            func.__name__ = f'{func.__name__}_{id(func)}'\n",
                                        "            keys_out, func = do_codegen(self.codegen, mv)\n")),
 ])
 def name_injective(ctx):
@@ -192,7 +192,7 @@ def _fx_name(ctx):
 
 # --------------------------------------------------------------------------- race-free fresh token (one clause of the thread statement)
 @rule("C09.token-atomic", props=["C09", "C11", "C12", "C13"], min_instances=3, mutants=[
-    ("token from the size of the shared name space (check-then-act)", ("operator_dict", "            keys_out, func = do_codegen(self.codegen, mv)\n            func.__name__ = f'{func.__name__}_{id(func)}'", "            keys_out, func = do_codegen(self.codegen, mv)\n            func.__name__ = f'{func.__name__}_{len(self.algebra.numspace)}'")),
+    ("token from the size of the shared name space (check-then-act)", ("operator_dict", "            keys_out, func = do_codegen(self.codegen, mv)\n            # The generated name only encodes which blades are present, not their order: make it unique.\n            func.__name__ = f'{func.__name__}_{id(func)}'", "            keys_out, func = do_codegen(self.codegen, mv)\n            # The generated name only encodes which blades are present, not their order: make it unique.\n            func.__name__ = f'{func.__name__}_{len(self.algebra.numspace)}'")),
 ])
 def token_atomic(ctx):
     """The token that makes a generated function's name unique must not be read from shared state that the same
@@ -224,7 +224,7 @@ def token_atomic(ctx):
 
 
 # --------------------------------------------------------------------------- who may write the name space
-@rule("C09.numspace-writers", props=["C09", "C10"], min_instances=1, mutants=[
+@rule("C09.numspace-writers", props=["C09", "C10", "C12"], min_instances=1, mutants=[
     ("callable multivectors memoised by name in numspace", ("codegen", "    return CodegenOutput(tuple(mv.keys()), func)\n\n\ndef do_codegen", "    mv.algebra.numspace.setdefault(f'custom_{mv.type_number}', func)\n    return CodegenOutput(tuple(mv.keys()), mv.algebra.numspace[f'custom_{mv.type_number}'])\n\n\ndef do_codegen")),
 ])
 def numspace_writers(ctx):
@@ -341,9 +341,10 @@ def check_exception_atomic(ctx, fn, q):
     return n
 
 
-@rule("C09.exception-atomic", props=["C09"], min_instances=9, mutants=[
-    ("cache entry stored before the wrapper runs", ("operator_dict", "            keys_out, func = do_compile(self.codegen, *tapes)\n            func.__name__ = f'{func.__name__}_{id(func)}'\n            self.algebra.numspace[func.__name__] = self.algebra.wrapper(func) if self.algebra.wrapper else func\n            self.operator_dict[keys_in] = (keys_out, func)",
-                                                    "            keys_out, func = do_compile(self.codegen, *tapes)\n            func.__name__ = f'{func.__name__}_{id(func)}'\n            self.operator_dict[keys_in] = (keys_out, func)\n            self.algebra.numspace[func.__name__] = self.algebra.wrapper(func) if self.algebra.wrapper else func")),
+@rule("C09.exception-atomic", props=["C09", "C05", "C07"], min_instances=15, mutants=[
+    ("a ZeroDivisionError of the generator is remembered as an empty result", ("operator_dict", "            mv = self.algebra.multivector(name='a', keys=keys_in, symbolcls=self.codegen_symbolcls)\n            keys_out, func = do_codegen(self.codegen, mv)\n", "            mv = self.algebra.multivector(name='a', keys=keys_in, symbolcls=self.codegen_symbolcls)\n            try:\n                keys_out, func = do_codegen(self.codegen, mv)\n            except ZeroDivisionError:\n                self.operator_dict[keys_in] = (tuple(), lambda *values: list())\n                raise\n")),
+    ("cache entry stored before the wrapper runs", ("operator_dict", "            keys_out, func = do_compile(self.codegen, *tapes)\n            # The generated name only encodes which blades are present, not their order: make it unique.\n            func.__name__ = f'{func.__name__}_{id(func)}'\n            self.algebra.numspace[func.__name__] = self.algebra.wrapper(func) if self.algebra.wrapper else func\n            self.operator_dict[keys_in] = (keys_out, func)",
+                                                    "            keys_out, func = do_compile(self.codegen, *tapes)\n            # The generated name only encodes which blades are present, not their order: make it unique.\n            func.__name__ = f'{func.__name__}_{id(func)}'\n            self.operator_dict[keys_in] = (keys_out, func)\n            self.algebra.numspace[func.__name__] = self.algebra.wrapper(func) if self.algebra.wrapper else func")),
 ])
 def exception_atomic(ctx):
     """A failing generation/compilation/wrapper leaves operator_dict and numspace untouched (TS)."""
@@ -355,19 +356,20 @@ def exception_atomic(ctx):
     from .c08 import GETITEMS as G8, tok
     for q, (kind, n, gen) in G8.items():
         fn = ctx.func(q)
-        for failing in ("generator", "wrapper"):
-            c = f"{q}#failing-{failing}"
+        for failing, exc_name in (("generator", "RuntimeError"), ("wrapper", "RuntimeError"), ("generator", "ZeroDivisionError"),
+                                  ("generator", "NotImplementedError")):
+            c = f"{q}#failing-{failing}" + (f":{exc_name}" if exc_name != "RuntimeError" else "")
             cache, numspace = {}, {}
             func = Obj("function", {"__name__": "generated_fn"})
 
-            def generate(codegen, *mvs, failing=failing):
+            def generate(codegen, *mvs, failing=failing, exc_name=exc_name):
                 if failing == "generator":
-                    raise Raised("RuntimeError")
+                    raise Raised(exc_name)
                 return (tok("KEYS_OUT"), func)
 
-            def wrap(f):
-                raise Raised("RuntimeError")
-            alg = Obj("algebra", {"wrapper": Obj("wrapper", call=wrap), "numspace": numspace},
+            def wrap(f, exc_name=exc_name):
+                raise Raised(exc_name)
+            alg = Obj("algebra", {"wrapper": Obj("wrapper", call=wrap) if failing == "wrapper" else None, "numspace": numspace},
                       {"multivector": lambda *a, **k: Obj("MultiVector", {"_keys": k.get("keys")})})
             me = Obj(kind, {"algebra": alg, "operator_dict": cache, "codegen": tok("CODEGEN"), "codegen_symbolcls": tok("SYMBOLCLS")})
             it = make_interp(ctx.repo)
@@ -382,10 +384,19 @@ def exception_atomic(ctx):
             except NoValue as exc:
                 raise Unknown(c, str(exc), fn)
             if out[0] != "raise":
-                raise Unknown(c, f"the failing {failing} did not propagate: {out!r}", fn)
+                ctx.violation(c, f"a {failing} that raises {exc_name} is swallowed: the look-up returns {out[1]!r}", fn)
+                continue
             if cache or numspace:
-                ctx.violation(c, f"a {failing} that raises leaves cache={len(cache)} / name-space={len(numspace)} entries behind: "
-                                 f"later calls with this key pattern use a half-built entry", fn)
+                ctx.violation(c, f"a {failing} that raises {exc_name} leaves cache={len(cache)} / name-space={len(numspace)} entries behind: "
+                                 f"later calls with this key pattern use a half-built entry instead of raising again", fn)
+                continue
+            try:
+                out2 = it.run(q, [me, key])
+            except NoValue as exc:
+                raise Unknown(c, str(exc), fn)
+            if out2[0] != "raise" or out2[1] != exc_name:
+                ctx.violation(c, f"the second look-up after a failed one gives {out2!r} instead of raising {exc_name} again: what an "
+                                 f"operation does depends on whether it was attempted before", fn)
             else:
                 ctx.ok(c, fn)
 
@@ -640,12 +651,47 @@ def value_memo(ctx):
                              f"on what was computed before", st)
 
 
+# --------------------------------------------------------------------------- the algebra owns its metric
+@rule("C09.owns-signature", props=["C09", "C18", "C01"], min_instances=2, mutants=[
+    ("the caller's signature array is kept, not copied", ("algebra", "            self.signature = np.array(self.signature)\n        else:", "            self.signature = np.asarray(self.signature)\n        else:")),
+    ("the caller's signature is kept as given", ("algebra", "            self.signature = np.array(self.signature)\n        else:", "            pass\n        else:")),
+])
+def owns_signature(ctx):
+    """The signature an algebra keeps is its own copy: the sign table is computed when the algebra is created, the
+    matrix basis and the lazy tables of large algebras later, so a signature object shared with the caller (an ndarray
+    that is refilled, a list that is edited) would make them follow different metrics."""
+    from .c01 import build_algebra
+    from ..absint import Raised
+    from ..astx import NoValue
+    fn = ctx.func("algebra.Algebra.__post_init__")
+    for given in ([1, -1, 1], [0, 1, 1, -1]):
+        c = f"algebra.Algebra.__post_init__#signature={given}"
+        handed = list(given)
+        try:
+            it, alg = build_algebra(ctx.repo, signature=handed)
+        except NoValue as exc:
+            raise Unknown(c, str(exc), fn)
+        except Raised as r:
+            ctx.violation(c, f"constructing the algebra raises {r.name}", fn)
+            continue
+        kept = alg.attrs.get("signature")
+        if kept is handed:
+            ctx.violation(c, "the algebra keeps the caller's signature object itself: when the caller changes it afterwards, whatever is "
+                             "computed lazily (matrix basis, sign table above six dimensions) follows another metric than what was computed "
+                             "at construction", fn)
+        elif not isinstance(kept, list) or list(kept) != given:
+            ctx.violation(c, f"the algebra keeps signature {kept!r} for the given {given}", fn)
+        else:
+            ctx.ok(c, fn)
+
+
 # --------------------------------------------------------------------------- every algebra owns its operator dictionaries
-@rule("C09.own-operator-dicts", props=["C09", "C02", "C13", "C14"], min_instances=3, mutants=[
+@rule("C09.own-operator-dicts", props=["C09", "C02", "C13", "C14", "C03", "C04", "C05", "C06", "C07"], min_instances=3, mutants=[
     ("a registry handed to the constructor is kept", ("algebra", "        self.registry = {f.name: f.type(name=f.name, algebra=self, **f.metadata)\n                         for f in fields(self) if 'codegen' in f.metadata}",
                                                         "        if not self.registry:\n            self.registry = {f.name: f.type(name=f.name, algebra=self, **f.metadata)\n                             for f in fields(self) if 'codegen' in f.metadata}")),
     ("operator dictionaries are bound to the class, not the instance", ("algebra", "            setattr(self, name, operator_dict)", "            setattr(type(self), name, operator_dict)")),
     ("operator dictionaries are created without their algebra", ("algebra", "f.type(name=f.name, algebra=self, **f.metadata)", "f.type(name=f.name, algebra=None, **f.metadata)")),
+    ("the handed-in registry is updated in place", ("algebra", "        self.registry = {f.name: f.type(name=f.name, algebra=self, **f.metadata)\n                         for f in fields(self) if 'codegen' in f.metadata}", "        self.registry.update({f.name: f.type(name=f.name, algebra=self, **f.metadata)\n                              for f in fields(self) if 'codegen' in f.metadata})")),
 ])
 def own_operator_dicts(ctx):
     """After construction - also when `registry` / `numspace` were handed to the constructor, as
@@ -667,6 +713,7 @@ def own_operator_dicts(ctx):
         foreign = {n: Obj(f.attrs["type"].name, {"name": n, "algebra": foreign_alg, "fmt": f"<foreign {n}>"}) for n, f in opfields.items()}
         init = {} if label == "fresh" else dict(foreign) if "replace" in label else {"gp": foreign["gp"], "inv": foreign["inv"]}
         created = []
+        handed = dict(init)        # the dictionary object the constructor receives (it belongs to the other algebra)
 
         def hook(cname, args, kwargs, _created=created):
             if cname in {f.attrs["type"].name for f in opfields.values()}:
@@ -677,7 +724,7 @@ def own_operator_dicts(ctx):
         try:
             it, alg = build_algebra(repo, p=2, q=1, _prepare=lambda it_, alg_: (
                 it_.standins.__setitem__("dataclasses.fields", PyFunc(lambda o: list(flds), "fields", True)),
-                alg_.attrs.__setitem__("registry", dict(init)),
+                alg_.attrs.__setitem__("registry", handed),
                 alg_.attrs.__setitem__("numspace", {"stale_name": Obj("function", {"fmt": "<stale>"})} if init else {}),
                 setattr(it_, "class_call_hook", _chain_hook(it_.class_call_hook, hook))))
         except NoValue as exc:
@@ -702,6 +749,11 @@ def own_operator_dicts(ctx):
                 problems.append(f"registry[{n!r}] is not the operator dictionary bound to the field {n}")
             if len(problems) >= 3:
                 break
+        if not problems and init and (set(handed) != set(init) or any(handed[k] is not init[k] for k in init)):
+            changed = sorted(k for k in set(handed) | set(init) if handed.get(k) is not init.get(k))
+            problems.append(f"the registry dictionary handed to the constructor is modified in place ({len(changed)} entries, e.g. "
+                            f"{changed[:3]}): it is the registry of the algebra this one was derived from, whose operators now belong to "
+                            f"the new algebra")
         if problems:
             ctx.violation(c, "; ".join(problems), fn)
         else:
@@ -764,7 +816,7 @@ def module_state_writes(repo):
 @rule("C09.module-state", props=["C09", "C18", "C14"], min_instances=1, mutants=[
     ("matrix basis shared between algebra instances by (p, q, r)", [
         ("algebra", "operation_field = partial(field, default_factory=dict, init=False, repr=False, compare=False)", "operation_field = partial(field, default_factory=dict, init=False, repr=False, compare=False)\n_matrix_basis_cache = {}"),
-        ("algebra", "        return matrix_rep(self.p, self.q, self.r, signature=self.signature)", "        pqr = (self.p, self.q, self.r)\n        if pqr not in _matrix_basis_cache:\n            _matrix_basis_cache[pqr] = matrix_rep(*pqr, signature=self.signature)\n        return _matrix_basis_cache[pqr]")]),
+        ("algebra", "        return matrix_rep(self.p, self.q, self.r, signature=self.signature, blades=blades)", "        pqr = (self.p, self.q, self.r)\n        if pqr not in _matrix_basis_cache:\n            _matrix_basis_cache[pqr] = matrix_rep(*pqr, signature=self.signature, blades=blades)\n        return _matrix_basis_cache[pqr]")]),
 ])
 def module_state(ctx):
     """No function of the package keeps results in module-level mutable state: whatever is remembered lives on the
